@@ -19,12 +19,13 @@ class Stats(object):
 
 
 def explore(run_one, bound, visit, max_execs=None, stats=None,
-            cost_filter=None):
+            cost_filter=None, start=None, children_only=False):
     """visit(chooser, result) is called for every execution.
     cost_filter(kind, label) -> bool may exclude choice points from
     deviation (they are then always taken with choice 0)."""
     st = stats or Stats()
-    stack = [((), 0)]
+    stack = [start or ((), 0)]
+    first = True
     while stack:
         prefix, used = stack.pop()
         if max_execs is not None and st.executions >= max_execs:
@@ -52,6 +53,11 @@ def explore(run_one, bound, visit, max_execs=None, stats=None,
                     if k <= bound:
                         children.append((tuple(taken[:i]) + (alt,), k))
             cum += costs[c]
+        if children_only and first:
+            # the caller distributes the first-level subtrees itself
+            st.children = children
+            return st
+        first = False
         stack.extend(reversed(children))
     return st
 
